@@ -82,14 +82,14 @@ KNOWN_FNS: dict[Callable, sympy.Expr] = {
     # math.frexp: sympy.frexp,
     # math.fsum: sympy.fsum,
     math.gamma: sympy.gamma,
-    math.gcd: sympy.gcd,
+    # math.gcd: sympy.gcd works on polynomials, constants arrive here as floats
     # math.hypot: sympy.hypot,
     # math.isclose: sympy.isclose,
     # math.isfinite: sympy.isfinite,
     # math.isinf: sympy.isinf,
     # math.isnan: sympy.isnan,
     # math.isqrt: sympy.isqrt,
-    math.lcm: sympy.lcm,
+    # math.lcm: sympy.lcm works on polynomials, constants arrive here as floats
     # math.ldexp: sympy.ldexp,
     # math.lgamma: sympy.lgamma,
     math.log: sympy.log,
@@ -102,7 +102,7 @@ KNOWN_FNS: dict[Callable, sympy.Expr] = {
     math.pow: sympy.Pow,
     math.prod: sympy.prod,
     math.radians: sympy.rad,
-    math.remainder: sympy.rem,
+    # math.remainder: sympy.rem is the polynomial remainder, not the IEEE 754 one
     math.sin: sympy.sin,
     math.sinh: sympy.sinh,
     math.sqrt: sympy.sqrt,
@@ -137,18 +137,18 @@ KNOWN_FNS: dict[Callable, sympy.Expr] = {
     np.cosh: sympy.cosh,
     np.exp: sympy.exp,
     np.floor: sympy.floor,
-    np.gcd: sympy.gcd,
+    # np.gcd: see math.gcd
     np.greater: sympy.GreaterThan,
     np.greater_equal: sympy.Ge,
     np.invert: sympy.invert,
-    np.lcm: sympy.lcm,
+    # np.lcm: see math.lcm
     np.less: sympy.LessThan,
     np.less_equal: sympy.Le,
     np.log: sympy.log,
-    np.maximum: sympy.maximum,
-    np.minimum: sympy.minimum,
+    np.maximum: sympy.Max,
+    np.minimum: sympy.Min,
     np.mod: sympy.Mod,
-    np.positive: sympy.Abs,
+    np.positive: sympy.Id,
     np.power: sympy.Pow,
     np.sign: sympy.sign,
     np.sin: sympy.sin,
